@@ -200,7 +200,11 @@ impl HdlcDeframer {
                         .collect();
                     debug!("HdlcDeframer: Captured packet: {:0>2x?}", bytes);
                     let tags = &[Tag::new(0, "packet_pos", TagValue::U64(stream_pos))];
-                    if self.strip_checksum {
+                    if self.strip_checksum && bytes.len() < 2 {
+                        // Not even room for the checksum. Can only happen
+                        // with min_size < 2.
+                        trace!("Packet too short for a checksum: {}", bytes.len());
+                    } else if self.strip_checksum {
                         let data = &bytes[..bytes.len() - 2];
                         let got_crc = u16::from_le_bytes(bytes[bytes.len() - 2..].try_into()?);
                         let (newdata, crc, fixed) = find_right_crc(data, got_crc, self.fix_bits);
